@@ -128,7 +128,7 @@ Proof.
       cbn [out_InvU] in V.
       pose proof (step_value_good c m1 attr a m2 v R EV) as GV.
       pose proof (GoodD_add _ d attr v G GV) as GA.
-      destruct ((negb ic && is_formal_attr attr)%bool).
+      destruct ((negb (ic && is_prov_name "entity" attr) && is_formal_attr attr)%bool).
       * destruct (attr_get attr d) as [|e0 rest0].
         -- eapply IH; [exact V | exact GA | exact H].
         -- destruct (py_eq v e0); [eapply IH; [exact V | exact G | exact H] | inversion H; subst; exact G].
